@@ -380,6 +380,8 @@ func (c *control) dirPercent(colon, at bool, params []any) {
 	n := 1
 	if 0 < len(params) {
 		switch tp := params[0].(type) {
+		case nil:
+			// an omitted parameter or nil for a v parameter, leave as is
 		case int:
 			n = tp
 		case slip.Integer:
@@ -397,6 +399,8 @@ func (c *control) dirAmp(colon, at bool, params []any) {
 	n := 1
 	if 0 < len(params) {
 		switch tp := params[0].(type) {
+		case nil:
+			// an omitted parameter or nil for a v parameter, leave as is
 		case int:
 			n = tp
 		case slip.Integer:
@@ -498,6 +502,8 @@ func (c *control) dirMove(colon, at bool, params []any) {
 	var changed bool
 	if 0 < len(params) {
 		switch tp := params[0].(type) {
+		case nil:
+			// an omitted parameter or nil for a v parameter, leave as is
 		case int:
 			n = tp
 			changed = true
@@ -1464,6 +1470,8 @@ func (c *control) dirTilde(colon, at bool, params []any) {
 	n := 1
 	if 0 < len(params) {
 		switch tp := params[0].(type) {
+		case nil:
+			// an omitted parameter or nil for a v parameter, leave as is
 		case int:
 			n = tp
 		case slip.Integer:
@@ -1481,6 +1489,8 @@ func (c *control) dirCond(colon, at bool, params []any) {
 	n := -1
 	if 0 < len(params) {
 		switch tp := params[0].(type) {
+		case nil:
+			// an omitted parameter or nil for a v parameter, leave as is
 		case int:
 			n = tp
 		case slip.Integer:
@@ -1708,6 +1718,8 @@ func (c *control) dirPage(colon, at bool, params []any) {
 	n := 1
 	if 0 < len(params) {
 		switch tp := params[0].(type) {
+		case nil:
+			// an omitted parameter or nil for a v parameter, leave as is
 		case int:
 			n = tp
 		case slip.Integer:
